@@ -31,7 +31,7 @@ CHECKS = {
             'differentiable operations and every choice of tracked operand/core, z3 decides EXISTS core values . dF_TT/dtheta != dF_dense/dtheta; grad.grad / grad.grad_list bookkeeping and shapes checked per path; '
             'each replay compares torch.autograd gradients on the real code.', '4 C15'),
     'C16': ('model_checking', 'riemannian_projection on rank-1 base points with arbitrary symbolic entries and on sparse rank-2..3 base points with symbolic magnitudes (exact symbolic QR), z, w arbitrary symbolic TT objects: '
-            'linearity (symbolic alpha, beta), idempotence, self-adjointness, P(x)=x, residual orthogonality and the rank bound are decided by z3 as equalities of rational functions with roots. The riemannian_gradient clause is not decided (no autograd encoding), see DESIGN.', '4 C16'),
+            'linearity (symbolic alpha, beta), idempotence, self-adjointness, P(x)=x, residual orthogonality and the rank bound are decided by z3 as equalities of rational functions with roots; riemannian_gradient(x, f) for three f is compared with P_x(grad f) through the autograd model of C15.', '4 C16'),
     'C18': ('model_checking', 'Shape-level symbolic execution: mode sizes and ranks of the operands are z3 integers in [1,B]; for every public entry point and operand-kind pair one run per structure explores the '
             'guards and the torch shape calculus; for every returning path z3 decides EXISTS sizes . NOT compatible (independent predicate from the docs); argument-type classes enumerated; documented exception classes compared.', '4 C18'),
     'C19': ('model_checking', 'load(save(x)), clone, detach, to, cpu, numpy on objects built from symbolic cores, by slicing, by TT-SVD and by rounding; the explorer reaches the paths on which the rank list holds numpy '
